@@ -314,3 +314,12 @@ func C13(op Opts) *Out {
 	}
 	return o
 }
+
+// FreshMnemonic returns the BIP-39 sentence (reference encoder) of a 128-bit entropy derived
+// from n: a supply of distinct valid mnemonics for callers that need a new wallet per call.
+func FreshMnemonic(n uint64) string {
+	var e [16]byte
+	h := sha256.Sum256([]byte(fmt.Sprintf("verif fresh mnemonic %d", n)))
+	copy(e[:], h[:16])
+	return refEncode(e[:], wordlists.English)
+}
